@@ -20,7 +20,9 @@ RULE = ("one case = one classifier fitted once on a generated tiny problem (8-14
         "whose estimators list contains a 'drop' entry, an entry without columns, an unused column with "
         "remainder='drop', or a remainder estimator), "
         "TimeSeriesForestClassifier, RandomIntervalSpectralForest, SupervisedTimeSeriesForest, "
-        "TimeSeriesForestRegressor; extra SupervisedTimeSeriesForest problems that are small and balanced so "
+        "TimeSeriesForestRegressor; refit histories (the same object fitted on problem A, then on problem B "
+        "with another label set / type / number of classes; clauses after the last fit) for every one of "
+        "them; extra SupervisedTimeSeriesForest problems that are small and balanced so "
         "that bootstrap bags miss classes (trees with fewer classes than the forest), three of them "
         "pinned in corpus/C17; plus function-level cases: BaseClassifier.predict/score on a "
         "scripted probability matrix with ties, _slope on random series, _transform on random "
@@ -234,6 +236,31 @@ def gen_cases(rng, tier):
                       "m": rng.randint(18, 22), "noise": rng.choice([1.0, 2.5]),
                       "rs": rng.choice([0, 1, 7, 42, 123]), "ycont": rng.choice(["array", "series"]),
                       "unseen_test_label": rng.random() < 0.25, "members": mem, "spec": spec})
+    # refit histories: the SAME estimator object is fitted on problem A and then on problem B
+    # (another label set, label type and / or number of classes); every clause is checked after the
+    # LAST fit - nothing of the first problem (classes, lookups, members) may survive (seed C17-e)
+    for i in range(27 if tier == "quick" else 108):
+        name = (CLFS + ["tsfreg"])[i % 9]
+        k = rng.choice([2, 2, 3])
+        n = rng.randint(max(8, 2 * k), 12)
+        forest = name in ("tsf", "rise", "stsf", "tsfreg")
+        ls = rng.choice(sorted(LABELSETS))
+        how = i % 3          # 0: other label set and more classes, 1: same labels plus more, 2: other type, fewer
+        ka = [rng.choice([3, 4]), rng.choice([k + 1, 4]), 2][how]
+        lsa = ls if how == 1 else rng.choice([x for x in sorted(LABELSETS) if x != ls])
+        c = {"kind": "clf", "clf": name, "seed": rng.randint(0, 10 ** 6), "k": k, "labelset": ls,
+             "sizes": _sizes(rng, k, n), "n_test": 4,
+             "m": rng.randint(18, 24) if forest else rng.randint(BOSS_MIN_SERIES + 2, 24) if name in ("boss", "colens")
+             else rng.randint(12, 16),
+             "noise": rng.choice([0.3, 1.0, 2.5]), "rs": rng.choice([0, 1, 7, 42, 123]),
+             "ycont": rng.choice(["array", "series"]), "unseen_test_label": rng.random() < 0.25,
+             "prefit": {"k": ka, "labelset": lsa, "sizes": _sizes(rng, ka, rng.randint(max(8, 2 * ka), 12)),
+                        "seed": rng.randint(0, 10 ** 6)}}
+        if name == "colens":
+            c["members"] = rng.choice([["iboss", "tsf"], ["tsf", "iboss", "cboss"], ["boss", "tsf"]])
+        if name == "tsfreg":
+            c["kind"] = "reg"
+        cases.append(c)
     # the vote counters with string labels of different lengths, the shortest first in classes_
     for i in range(8 if tier == "quick" else 40):
         k = rng.choice([3, 4])
@@ -462,6 +489,22 @@ def _fit(clf, X, y):
         raise
 
 
+def _prefit(est, case, ncols=1, regression=False):
+    """history `fit on problem A, then fit the SAME object on problem B`: the earlier fit (another
+    label set / label type / number of classes, same series length) must leave nothing behind"""
+    pre = case.get("prefit")
+    if not pre:
+        return
+    import numpy as np
+    a = dict(case, **pre)
+    a["unseen_test_label"] = False
+    XA, yA, _x, _y = _problem(a, ncols=ncols)
+    if regression:
+        est.fit(XA, np.random.RandomState(a["seed"] + 1).normal(size=len(yA)) * 3)
+    else:
+        _fit(est, XA, _ycont(yA, case["ycont"]))
+
+
 def _run_clf(case):
     import numpy as np
     name = case["clf"]
@@ -492,6 +535,7 @@ def _run_clf(case):
             ests.insert(spec["empty"] % (len(ests) + 1), ("nocols", _make("iboss", 77, case["m"]), []))
         rem = _make(spec["remainder"], (case["rs"] or 0) + 11, case["m"]) if spec.get("remainder") else "drop"
         clf = ColumnEnsembleClassifier(ests, remainder=rem)
+        _prefit(clf, case, ncols=len(mem) + extra)
         _fit(clf, Xtr, _ycont(ytr, case["ycont"]))
         kind = "rows"
         # the FITTED members on THEIR columns of the test frame: the columns the USER specified in
@@ -509,6 +553,7 @@ def _run_clf(case):
     else:
         Xtr, ytr, Xte, yte = _problem(case)
         clf = _make(name, case["rs"], case["m"])
+        _prefit(clf, case)
         _fit(clf, Xtr, _ycont(ytr, case["ycont"]))
         kind, members = _member_rows(name, clf, Xte)
     try:
@@ -569,6 +614,7 @@ def _run_reg(case):
     r = np.random.RandomState(case["seed"] + 1)
     y = r.normal(size=len(ytr)) * 3
     reg = TimeSeriesForestRegressor(n_estimators=3 + (case["rs"] or 0) % 3, random_state=case["rs"])
+    _prefit(reg, case, regression=True)
     reg.fit(Xtr, y)
     X2 = from_nested_to_3d_numpy(Xte).squeeze(1)
     trees = [np.asarray(e.predict(_transform(X2, iv))) for e, iv in zip(reg.estimators_, reg.intervals_)]
@@ -849,6 +895,8 @@ def nontrivial(case, out):
 def shrink(case):
     c = dict(case)
     if c["kind"] in ("clf", "reg"):
+        if c.get("prefit"):
+            yield {k: v for k, v in c.items() if k != "prefit"}
         if c["n_test"] > 1:
             yield dict(c, n_test=c["n_test"] - 1)
             yield dict(c, n_test=1)
@@ -1027,6 +1075,8 @@ def distribution(cases, results):
                 d["cboss-ensembles-of-zero-accuracy-members-only"] += 1
             elif any((w or 0) < 1e-6 for w in ws):
                 d["cboss-ensembles-with-a-zero-accuracy-member"] += 1
+        if c.get("prefit"):
+            d["refit-history:%s" % ("error" if "err" in o else "fit-refused" if "fit_refused" in o else "ran")] += 1
         if o.get("colens") and c.get("spec"):
             d["colens-with-" + "+".join(sorted(c["spec"]))] += 1
             if o["colens"]["n_fitted"] < o["colens"]["n_spec"]:
